@@ -39,6 +39,13 @@ def cliLine (st : CliRun) (lineNo : Nat) (line : String) : Except String (CliRun
                   (if back == some raw then [] else [s!"DIVERGE base64_decode line={lineNo} raw={get "raw"} enc={enc}"])
       .ok ({ st with cases := st.cases + 1, diverges := st.diverges + outs.length, cover := bump st.cover s!"b64:len%3={raw.length % 3}" }, outs)
     | _, _ => .error s!"line {lineNo}: bad b64 line"
+  | "clibig" :: rest =>
+    -- a binary value of more than a mebibyte: sent exactly as read, from a file or a pipe
+    let fs := fields rest
+    let get := fun k => (lookup fs k).getD ""
+    let ok := get "exit" == "0" && get "match" == "1"
+    let outs := if ok then [] else [s!"PROPFAIL C18 cli_policy line={lineNo} large binary value src={get "src"} len={get "len"} exit={get "exit"} stored_len={get "storedlen"} match={get "match"}"]
+    .ok ({ st with cases := st.cases + 1, fails := st.fails + outs.length, cover := bump st.cover s!"clibig:{get "src"}" }, outs)
   | "bytes" :: rest =>
     let fs := fields rest
     let get := fun k => (lookup fs k).getD ""
@@ -48,6 +55,7 @@ def cliLine (st : CliRun) (lineNo : Nat) (line : String) : Except String (CliRun
     -- the file-backed client serves every non-empty secret identically; an empty one is absent
     let fcOK := if get "len" == "0" then get "fileclient" == "notfound" || get "fileclient" == put else get "fileclient" == put
     let outs := (if bad.isEmpty then [] else [s!"PROPFAIL C18 value_roundtrip line={lineNo} class={get "class"} len={get "len"} differs_at={bad} put={put.take 80}"]) ++
+                (if get "recreated" == "0" then [s!"PROPFAIL C18 value_roundtrip line={lineNo} class={get "class"} len={get "len"} after delete and re-creation the name serves other bytes than were put last"] else []) ++
                 (if fcOK then [] else [s!"PROPFAIL C18 fileclient_roundtrip line={lineNo} class={get "class"} len={get "len"} fileclient={(get "fileclient").take 80} put={put.take 80}"])
     .ok ({ st with cases := st.cases + 1, fails := st.fails + outs.length, cover := bump st.cover s!"bytes:{get "class"}" }, outs)
   | _ =>
